@@ -4,7 +4,7 @@ import random
 
 from .. import load
 from ..ctx import HarnessError
-from ..gen import mixed as M
+from ..gen import ipgen, mixed as M
 
 LEVEL = "exploration"
 RULE = ("cases = (feature subset of 16 [+ undo instead of anonymize for the IP stage = 24], option values, multi-line "
@@ -43,6 +43,11 @@ def options(rng):
     if rng.random() < 0.5:
         # listed words that overlap address text (hex words, digits): the stage order decides what they see
         o["words"] = sorted(set(o["words"]) | set(rng.sample(["cafe", "beef", "db8", "10", "ace", "fe80", "192"], rng.randint(1, 3))))
+    if rng.random() < 0.3:
+        # a listed "word" that is an address which the IP stage leaves as written (a mask, a preserved private address)
+        o["words"] = sorted(set(o["words"]) | set(rng.sample(["255.255.255.0", "0.0.0.255", "10.10.10.10", "255.255.0.0"], rng.randint(1, 2))))
+        if rng.random() < 0.5:
+            o["pa"] = list(ipgen.RFC1918)
     return o
 
 
